@@ -296,7 +296,8 @@ def work_trap(shard):
     env = Env()
     try:
         for kw, body in bodies:
-            prog = [b'10 ON ERROR GOTO 100', b'20 END', b'30 ERROR 5', b'40 END',
+            # (user functions are defined: their memory records sit among the variables whatever the handler does)
+            prog = [b'5 DEF FNS$(X$)=X$+"!":DEF FNT(X)=X+1:S$="a"+"b"', b'10 ON ERROR GOTO 100', b'20 END', b'30 ERROR 5', b'40 END',
                     ('100 ' + body).encode('latin-1'), b'110 RESUME NEXT']
             for seq in (['RUN', 'ERROR 5', 'PRINT ERR;ERL'], ['RUN', 'GOTO 30', 'CONT'], ['RUN', 'X=1/0:ERROR 6', 'LIST']):
                 case = {'config': config, 'mode': 'trap', 'lines': seq, 'program': [l.decode('latin-1') for l in prog]}
